@@ -30,11 +30,15 @@ Least(a, b) == IF a < b THEN a ELSE b
 \* at most `n` elements of a set, as a sequence (keeps the printed verdict small)
 Some(S, n) == LET sq == SetToSeq(S) IN SubSeq(sq, 1, Least(n, Len(sq)))
 
+\* TLC keeps a set built by comprehension as an unsorted list (membership: linear search) until its
+\* cardinality is asked for; asking once makes the many membership tests below logarithmic
+Norm(S) == IF Cardinality(S) >= 0 THEN S ELSE {}
+
 TextLens(e) == [i \in 1..Len(e.lines) |-> Len(e.lines[i])]
 
 \* line lengths of the document a reported location points into; <<>> if there is no such document
-LensOf(e, m) == IF m = e.m THEN TextLens(e)
-                ELSE IF m \in DOMAIN e.docs THEN e.docs[m] ELSE <<>>
+LensOf(e, lens, m) == IF m = e.m THEN lens
+                      ELSE IF m \in DOMAIN e.docs THEN e.docs[m] ELSE <<>>
 
 SvcKind(r) == r[1]
 SvcMod(r) == r[2]
@@ -48,7 +52,7 @@ Verdict(e) ==
   LET lens == TextLens(e)
       nodes == e.nodes
       \* locations reported by the services that point into a document of the workspace
-      known == {k \in 1..Len(e.svc) : LensOf(e, SvcMod(e.svc[k])) # <<>>}
+      known == {k \in 1..Len(e.svc) : LensOf(e, lens, SvcMod(e.svc[k])) # <<>>}
       \* a diagnostic / navigation result that names no document at all is outside every document;
       \* related locations of a diagnostic (dref) may refer to built-in classes, which have no text
       homeless == {k \in 1..Len(e.svc) : k \notin known /\ SvcKind(e.svc[k]) # "dref"}
@@ -59,7 +63,7 @@ Verdict(e) ==
      \cup {<<"SiblingsDisjoint", "node", p[1], p[2]>> : p \in OverlappingSiblings(nodes, e.groups)}
      \cup {<<"NameSpellsItself", "node", i>> : i \in MisspelledNames(nodes, e.lines)}
      \cup {<<"InsideDocument", "svc", k>> :
-             k \in {k \in known : ~InsideDocument(SvcLoc(e.svc[k]), LensOf(e, SvcMod(e.svc[k])))}}
+             k \in {k \in known : ~InsideDocument(SvcLoc(e.svc[k]), LensOf(e, lens, SvcMod(e.svc[k])))}}
      \cup {<<"InsideDocument", "svc", k>> : k \in homeless}
      \cup {<<"StartLeEnd", "svc", k>> : k \in {k \in 1..Len(e.svc) : ~StartLeEnd(SvcLoc(e.svc[k]))}}
      \* every reference to a name is a range that spells that name (`this` is a keyword, not a name:
@@ -85,11 +89,11 @@ Drift(e) ==
       ts == TokenSpans(e)
       spans == ts[2]
       syntax == {k \in 1..Len(spans) : e.toks[k][3] = 0}
-      starts == {spans[k][1] : k \in syntax}
-      ends == {spans[k][2] : k \in syntax}
-      whole == {spans[k] : k \in syntax}
+      starts == Norm({spans[k][1] : k \in syntax})
+      ends == Norm({spans[k][2] : k \in syntax})
+      whole == Norm({spans[k] : k \in syntax})
       nodes == e.nodes
-      nodeLocs == {NodeLoc(nodes[i]) : i \in 1..Len(nodes)}
+      nodeLocs == Norm({NodeLoc(nodes[i]) : i \in 1..Len(nodes)})
   IN
      \* the harness's two views of the document agree: the machine ends where the lines end,
      \* and a word token's range slices to the word
